@@ -282,6 +282,24 @@ func ruleR4_3(r *Run) {
 		r.violation("loadVersion0", "datastore.repoManager.loadVersion0 not found", "-")
 		return
 	}
+	// the reads of the id maps may sit in a helper of the loader (m.loadIDMaps()): the tolerance is then that helper's
+	countLoads := func(g *ssa.Function) int {
+		k := 0
+		for _, c := range calls(g) {
+			if callsMethodNamed(c, "loadData") {
+				k++
+			}
+		}
+		return k
+	}
+	if countLoads(lv) < 2 {
+		for _, g := range withHelpers(lv) {
+			if countLoads(g) >= 2 {
+				lv = g
+				break
+			}
+		}
+	}
 	nLoad := 0
 	env := &AEnv{Atom: func(v ssa.Value) (AVal, bool) {
 		if ex, ok := v.(*ssa.Extract); ok {
